@@ -212,3 +212,103 @@ Proof.
     + apply (l_stop_failure_reported g x o f n). split; [|apply Hfxp; exact Hn].
       apply (in_eo x o H1). destruct (EO n) as (_ & _ & _ & _ & _ & K). apply K. right. exact Hl.
 Qed.
+
+(* ---- clause 4' of the audit: exactly which order ShutdownAll uses for the pipeline components ----- *)
+Definition cstarts (l : list ev) : list nat := flat_map (fun e => match e with CStart n => [n] | _ => [] end) l.
+Definition cstops (l : list ev) : list nat := flat_map (fun e => match e with CStop n => [n] | _ => [] end) l.
+
+Lemma cstarts_app a b : cstarts (a ++ b) = cstarts a ++ cstarts b.
+Proof. apply flat_map_app. Qed.
+Lemma cstops_app a b : cstops (a ++ b) = cstops a ++ cstops b.
+Proof. apply flat_map_app. Qed.
+Lemma cstarts_same l : cstarts (map CStart l) = l.
+Proof. induction l; simpl; congruence. Qed.
+Lemma cstops_same l : cstops (map CStop l) = l.
+Proof. induction l; simpl; congruence. Qed.
+Lemma cstarts_other (mk : nat -> ev) l : (forall n m, mk n <> CStart m) -> cstarts (map mk l) = [].
+Proof.
+  intros H. induction l as [|a l IH]; [reflexivity|].
+  change (cstarts (map mk (a :: l))) with ((match mk a with CStart n => [n] | _ => [] end) ++ cstarts (map mk l)).
+  rewrite IH. destruct (mk a) eqn:E; try reflexivity. exfalso. eapply H; eauto.
+Qed.
+Lemma cstops_other (mk : nat -> ev) l : (forall n m, mk n <> CStop m) -> cstops (map mk l) = [].
+Proof.
+  intros H. induction l as [|a l IH]; [reflexivity|].
+  change (cstops (map mk (a :: l))) with ((match mk a with CStop n => [n] | _ => [] end) ++ cstops (map mk l)).
+  rewrite IH. destruct (mk a) eqn:E; try reflexivity. exfalso. eapply H; eauto.
+Qed.
+
+(* the Shutdown calls of the pipeline components are EXACTLY the component subsequence of the
+   topological order that the sort inside ShutdownAll returned (a second, independent sort); the
+   Start calls are a prefix of the reversed component subsequence of the order StartAll's sort
+   returned.  When both sorts return the same order and no start fails, the shutdown sequence is
+   the exact reverse of the start sequence. *)
+Lemma l_component_orders g x o f :
+  let L := fst (collector_run g x o f) in
+  cstops L = filter (is_comp g) (stop_order o) /\
+  prefix (cstarts L) (filter (is_comp g) (rev (start_order o))) /\
+  (stop_order o = start_order o -> cstarts L = filter (is_comp g) (rev (start_order o)) -> cstops L = rev (cstarts L)).
+Proof.
+  intros L. unfold L. rewrite run_eq. simpl. rewrite shutdown_eq. simpl.
+  destruct (service_start g x o f) as [ls es] eqn:E. simpl. apply start_shape in E.
+  destruct E as (xs & cf & cs & rs & -> & _ & Hcs & _).
+  assert (S1 : cstops (map XStart xs ++ map NCfg cf ++ map CStart cs ++ map NReady rs) = []).
+  { rewrite !cstops_app. rewrite !cstops_other; try reflexivity; intros n m; discriminate. }
+  assert (S2 : cstarts (map XStart xs ++ map NCfg cf ++ map CStart cs ++ map NReady rs) = cs).
+  { rewrite !cstarts_app. rewrite cstarts_same. rewrite !cstarts_other; try (intros n m; discriminate). rewrite app_nil_r. reflexivity. }
+  assert (S3 : cstops (map NNotReady (filter (pw x) (ext_order o)) ++ map CStop (stop_seq g o) ++ map XStop (rev (ext_order o))) = stop_seq g o).
+  { rewrite !cstops_app. rewrite cstops_same. rewrite !cstops_other; try (intros n m; discriminate). rewrite app_nil_r. reflexivity. }
+  assert (S4 : cstarts (map NNotReady (filter (pw x) (ext_order o)) ++ map CStop (stop_seq g o) ++ map XStop (rev (ext_order o))) = []).
+  { rewrite !cstarts_app. rewrite !cstarts_other; try reflexivity; intros n m; discriminate. }
+  rewrite cstops_app, cstarts_app, S1, S2, S3, S4. simpl. rewrite app_nil_r.
+  split; [reflexivity|]. split; [exact Hcs|].
+  intros Eo Ec. rewrite Ec. unfold stop_seq. rewrite Eo.
+  (* filter commutes with rev *)
+  assert (FR : forall l, filter (is_comp g) (rev l) = rev (filter (is_comp g) l)).
+  { induction l as [|a l IH]; [reflexivity|]. simpl. rewrite filter_app, IH. simpl.
+    destruct (is_comp g a); simpl; [reflexivity|rewrite app_nil_r; reflexivity]. }
+  rewrite FR, rev_involutive. reflexivity.
+Qed.
+
+(* two valid results of the two sorts for which the shutdown sequence is not the reverse of the start
+   sequence: start order 0 10 1 11 2 3 12 13 4 (starts 4 3 2 1 0), shutdown order 0 10 1 11 3 12 13 4 2 *)
+Lemma l_component_stop_not_reverse : exists g x o f,
+  orders_ok g x o = true /\ cstops (fst (collector_run g x o f)) <> rev (cstarts (fst (collector_run g x o f))).
+Proof.
+  exists {| comps := [0; 1; 2; 3; 4]; auxs := [10; 11; 12; 13];
+            edges := [(0, 10); (10, 1); (1, 11); (11, 2); (11, 3); (3, 12); (12, 13); (13, 4)] |},
+         {| exts := []; deps := []; cfgw := []; pipew := []; has_conf := false |},
+         {| ext_order := []; start_order := [0; 10; 1; 11; 2; 3; 12; 13; 4]; stop_order := [0; 10; 1; 11; 3; 12; 13; 4; 2] |},
+         {| fx_start := fun _ => false; fx_stop := fun _ => false; fc_start := fun _ => false; fc_stop := fun _ => false;
+            f_cfg := fun _ => false; f_ready := fun _ => false; f_notready := fun _ => false |}.
+  split; [vm_compute; reflexivity|]. vm_compute. discriminate.
+Qed.
+
+(* ---- lists accepted with repetitions: the extension set derived from the configured list -------- *)
+Lemma dedup_In x : forall l, In x (dedup l) <-> In x l.
+Proof.
+  induction l as [|a l IH]; simpl; [tauto|]. destruct (mem a l) eqn:M.
+  - rewrite IH. apply mem_In in M. split; [auto|]. intros [<-|H]; assumption.
+  - simpl. rewrite IH. tauto.
+Qed.
+
+Lemma dedup_NoDup : forall l, NoDup (dedup l).
+Proof.
+  induction l as [|a l IH]; simpl; [constructor|]. destruct (mem a l) eqn:M; [exact IH|].
+  constructor; [|exact IH]. rewrite dedup_In. intro H. apply mem_In in H. congruence.
+Qed.
+
+(* whatever repetitions service::extensions contains, every configured extension is started at most
+   once and shut down exactly once (orders computed by the sort algorithm) *)
+Lemma l_configured_twice_started_once g x configured pe ps pp o f :
+  exts x = extensions_new configured -> edges_in (exts x) (deps x) -> NoDup (nodes g) -> edges_in (nodes g) (edges g) ->
+  orders_by g x pe ps pp = Some o ->
+  forall e, In e configured -> count (XStart e) (log g x o f) <= 1 /\ count (XStop e) (log g x o f) = 1.
+Proof.
+  intros Ex He Hn Hg Ho e Hin.
+  assert (W : wf_topology g x).
+  { split; [rewrite Ex; apply dedup_NoDup|]. split; [exact He|]. split; assumption. }
+  pose proof (l_orders_by_ok g x pe ps pp o W Ho) as Hok.
+  destruct (p_exactly_once g x o f Hok e) as (_ & A & _ & B & _). split; [exact A|].
+  apply B. rewrite Ex. apply dedup_In. exact Hin.
+Qed.
